@@ -55,6 +55,9 @@ CHECKS = {
  "C13": ("exploration", "5 C13", "bounded exhaustive enumeration of renderer configurations; independent PNG decoder as oracle",
    "Square shape at original scale for all 40 versions (every pixel); 6 shapes x versions x margins x 9 fit requests x 3 colour pairs: pixmap square with the requested side, centre pixel of every cell exact, every pixel for the square shape at integer scale; to_bytes() decoded by an own PNG reader (inflate, CRCs, unfilter) equals the de-multiplied pixmap.",
    "resvg/usvg/tiny-skia/png treated as part of the subject. Opaque module colours, background alpha 0/255 only."),
+ "C17": ("model_checking", "5 C17", "explicit-state breadth-first search over option-setter programs de-duplicated on the implementation's own state, every transition executed on the real object, outputs compared with the native API",
+   "BFS from SvgOptions::new() to depth 3 (thorough 4) over a 78-operation alphabet including 12 malformed colour strings, position arrays of length 0-3, size without position and vice versa; every (state, operation) transition runs on the real object under catch_unwind; in every distinct state qr_svg is byte-compared with the native SvgBuilder configured from the abstract model; qr() compared with the native default build around every capacity edge; all 3906 short strings over {# 0 f g e-acute} through each colour setter.",
+   "Hook H4 compiles src/wasm.rs for the host; the wasm32 target itself (32-bit usize) is not executed. Malformed colour strings may be ignored or leave any valid colour."),
  "C18": ("exploration", "5 C18", "bounded exhaustive enumeration of frame configurations, attributes parsed back from the SVG",
    "All 2040 default placements (40 versions x 3 frame shapes x margins 0..16) and ~50k (100k thorough) override combinations: square, centred, module-aligned, monotone, < 40 %, clear of finders, image centred and no larger; overrides: requested size, gap (less at most one module), position honoured.",
    "Real-valued overrides are a finite grid (the property says sampled)."),
